@@ -31,6 +31,8 @@ def run(ctx):
                         if op in ("set", "multiset"):
                             sc["setvals"] = O.setvals(rnd, oids)
                         S.append(sc)
+                        if op in ("bulkget", "multiget") and pert == "none" and rnd.random() < 0.3:
+                            S.append(dict(sc, again=True))        # the same list objects handed to a second call
     # objects the library knows by name (the usmStats counters, 1.3.6.1.6.3.15.1.1.k.0) are ordinary MIB objects for every protocol level
     from absmap import VALUE_TYPES as VT
     sdb = [[[1, k2, 0], [VT[k2 % len(VT)], 40 + k2]] for k2 in range(1, 7)]
